@@ -331,14 +331,29 @@ def run_chain(case):
                 res.violate("membership-is-not-the-set-operation", op=f"{o1},{o2}", form="chain", partial_overlap=True,
                             detail={"a": case["a"], "b": case["b"], "c": cn, "n_wrong": int((got != want).sum())})
             res.nontrivial = True
-        # variadic forms: union(*others) = fold
-        try:
-            Rv = A.union(B, C)
-            wantv = ma | mb | mc
-            if not np.array_equal(Rv.contains_points(pk), wantv):
-                res.violate("membership-is-not-the-set-operation", op="union(*2)", form="variadic", partial_overlap=True, detail={"a": case["a"], "b": case["b"], "c": cn})
-        except ValueError:
-            pass
+        # variadic forms and the class-method constructors = folds of the binary operation
+        for opn, fold in (("union", ma | mb | mc), ("intersection", ma & mb & mc), ("difference", ma & ~mb & ~mc)):
+            for how in ("method", "classmethod", "classmethod-arrays"):
+                a0, b0, c0 = A.points.copy(), B.points.copy(), C.points.copy()
+                try:
+                    if how == "method":
+                        Rv = getattr(A, opn)(B, C, name="combo")
+                    elif how == "classmethod":
+                        Rv = getattr(tdgl.Polygon, "from_" + opn)([A, B, C], name="combo")
+                    else:
+                        Rv = getattr(tdgl.Polygon, "from_" + opn)([A.points.copy(), B.points.copy(), C.points.copy()], name="combo", mesh=False)
+                except ValueError:
+                    continue  # representability of the intermediate results is decided by the binary checks above
+                res.count("programs")
+                if Rv.area < 1e-9:
+                    continue  # numerical sliver of an exactly empty result: not decided
+                if not np.array_equal(Rv.contains_points(pk), fold):
+                    res.violate("membership-is-not-the-set-operation", op=f"{opn}(*3)", form=how, partial_overlap=True, detail={"a": case["a"], "b": case["b"], "c": cn})
+                if Rv.name != "combo" or (how == "classmethod-arrays" and Rv.mesh is not False):
+                    res.violate("combined-polygon-attributes", op=opn, form=how, detail={"name": Rv.name, "mesh": Rv.mesh})
+                if not (np.array_equal(A.points, a0) and np.array_equal(B.points, b0) and np.array_equal(C.points, c0)):
+                    res.violate("operand-mutated", op=f"{opn}(*3)")
+                check_stored(res, Rv, f"variadic:{opn}", {"a": case["a"], "b": case["b"], "c": cn})
     res.outcome = "chain"
     return res
 
